@@ -137,7 +137,7 @@ public:
     std::vector<Bytes> encode(const std::vector<MsgSpec>& batch, size_t minBytes, size_t maxBytes, int mode);
     // packets that came out of a decoder, encoded again (mode 0 copies in a vector, 1 the very shared_ptr objects, 2 single)
     // an encode call over the same packets that an exception out of the caller's iterator aborts at packet throwAt
-    // (where: 0 on dereference, 1 on increment); true if it was aborted
+    // (where: 0 on dereference, 1 on increment; 2: plain iterators, the throwAt-th allocation inside the call fails); true if it was aborted
     bool encodeAborted(const std::vector<MsgSpec>& batch, size_t minBytes, size_t maxBytes, size_t throwAt, int where);
     // encode calls in which a forked copy of the encoder (lifecycle 9) returned other frames than the original
     uint64_t shadowDiverged() const;
@@ -167,7 +167,16 @@ public:
     ~Dec();
     Dec(const Dec&) = delete;
     Dec& operator=(const Dec&) = delete;
-    std::vector<PacketRef> decode(const uint8_t* data, size_t size);
+    // allocFailAt >= 0: the allocFailAt-th allocation inside the call fails (asan variant; elsewhere it never fires)
+    std::vector<PacketRef> decode(const uint8_t* data, size_t size, long allocFailAt = -1);
+    bool lastCallThrew() const
+    {
+        return lastThrew;
+    }
+    bool lastCallAllocFailed() const
+    {
+        return lastFired;
+    }
     void lifecycle(int how);
     std::unique_ptr<Dec> clone() const;
     // non-zero: returned packets are (deterministically, about half of them) handed on as copies / moved / assigned objects
@@ -188,6 +197,9 @@ private:
     uint64_t calls{0};
     uint64_t shadowDiffs{0};
     uint64_t lastEdges{0};
+    bool lastThrew{false};
+    bool lastFired{false};
+    uint64_t lastAllocs{0};
 };
 
 // ------------------------------------------------------------------ status tracker
